@@ -348,6 +348,23 @@ fn main() {
                     _ => "TOKEN-ERR".to_string(),
                 }
             }
+            // hmap <op>...: a<rid> allocate | o<rid> orphan | l<sid> lookup | r<sid> is the id reserved | s<ms> sleep; one result token per op
+            "hmap" => {
+                let mut t = vh::HandlerTable::new();
+                let mut out: Vec<String> = Vec::new();
+                for op in &a[1..] {
+                    let (k, v) = op.split_at(1);
+                    match k {
+                        "a" => out.push(match t.allocate(v.parse().unwrap()) { Ok(id) => id.to_string(), Err(()) => "E".to_string() }),
+                        "o" => { t.orphan(v.parse().unwrap()); out.push("-".to_string()) }
+                        "l" => out.push(match t.lookup(v.parse().unwrap()) { Ok(Some(r)) => format!("H{}", r), Ok(None) => "O".to_string(), Err(()) => "M".to_string() }),
+                        "r" => out.push(if t.is_reserved(v.parse().unwrap()) { "1".to_string() } else { "0".to_string() }),
+                        "s" => { std::thread::sleep(std::time::Duration::from_millis(v.parse().unwrap())); out.push("-".to_string()) }
+                        _ => out.push("?".to_string()),
+                    }
+                }
+                out.join(" ")
+            }
             "token_new" => Token::new(num(1) as i64).value().to_string(),
             _ => "UNKNOWN".to_string(),
         };
